@@ -50,9 +50,12 @@ class ViewerWorld:
         self.counter += 1
         k = self.counter
         if self.kind in ("image", "profile"):
-            shape = (2, 3) if k % 2 else (2, 3, 2)
+            shape = (2, 3) if ((k - 1) // 2) % 2 == 0 else (2, 3, 2)
             n = int(np.prod(shape))
             d = Data(label="d%d" % k, x=np.arange(float(n)).reshape(shape) + k, y=np.arange(float(n)).reshape(shape) * k)
+            if k % 2 == 0:      # some datasets have world coordinates, so the reference of an image viewer can move between both kinds
+                from glue.core.coordinates import IdentityCoordinates
+                d.coords = IdentityCoordinates(n_dim=len(shape))
         else:
             d = Data(label="d%d" % k, x=np.arange(4.0) + k, y=np.arange(4.0) * k, c=np.array(["p", "q", "p", "r"]))
         return d
@@ -227,6 +230,20 @@ class ViewerWorld:
                 raise Mismatch("image-axes-not-distinct", where)
             if not any(s.x_att is p for p in pix) or not any(s.y_att is p for p in pix):
                 raise Mismatch("image-axes-not-pixel-axes-of-reference-data", where)
+            # the two axis pickers offer exactly the reference dataset's world axes (pixel axes if it has no coordinates) and
+            # select the attribute that belongs to the displayed pixel axis
+            ref = s.reference_data
+            offered = list(ref.world_component_ids) if ref.coords is not None else list(pix)
+            for name, att in (("x_att_world", s.x_att), ("y_att_world", s.y_att)):
+                ch = [c for c in getattr(type(s), name).get_choices(s) if type(c).__name__ != "ChoiceSeparator"]
+                if [id(c) for c in ch] != [id(c) for c in offered]:
+                    raise Mismatch("image-axis-picker-offers-wrong-attributes/" + name,
+                                   {"where": where, "offered": [str(c) for c in ch], "expected": [str(c) for c in offered]})
+                val = getattr(s, name)
+                if not any(val is c for c in offered):
+                    raise Mismatch("image-axis-picker-selection-not-among-choices/" + name, {"where": where, "value": str(val)})
+                if offered.index(val) != att.axis:
+                    raise Mismatch("image-axis-picker-not-tied-to-displayed-axis/" + name, {"where": where, "picker": str(val), "axis": str(att)})
         # attribute pickers of the viewer state select one of their choices
         for name in ("x_att", "y_att"):
             if hasattr(type(v.state), name) and self.kind != "image":
@@ -560,6 +577,16 @@ def viewer_cases(maxops):
                                   "ops": st.tuples(st.just([["append"], ["add_data", 0]]), st.lists(vop, min_size=2, max_size=maxops)).map(lambda t: t[0] + t[1])})
 
 
+# image viewers whose reference dataset moves between datasets with and without world coordinates
+ref_op = st.one_of(st.tuples(st.just("add_data"), idx), st.tuples(st.just("add_data"), idx), st.tuples(st.just("remove"), idx), st.tuples(st.just("remove_data"), idx),
+                   st.tuples(st.just("reappend"), idx), st.tuples(st.just("select"), idx, idx), st.tuples(st.just("select"), st.just(2), idx),
+                   st.tuples(st.just("append")), st.tuples(st.just("restore"))).map(list)
+image_ref_cases = st.fixed_dictionaries({"kind": st.just("image"),
+                                         "ops": st.tuples(st.sampled_from([[["append"], ["append"], ["add_data", 0]], [["append"], ["append"], ["add_data", 1]],
+                                                                           [["append"], ["append"], ["append"], ["append"], ["add_data", 2]]]),
+                                                          st.lists(ref_op, min_size=2, max_size=8)).map(lambda t: t[0] + t[1])})
+
+
 hop = st.one_of(st.tuples(st.sampled_from(["attach", "attach", "detach", "dattach", "ddetach", "dcremove", "dcappend", "flag", "addcomp", "rmcomp", "rename", "select"]), idx, idx)).map(list)
 helper_cases = st.fixed_dictionaries({
     "flags": st.fixed_dictionaries({"numeric": st.booleans(), "categorical": st.booleans(), "pixel_coord": st.booleans(), "world_coord": st.booleans(),
@@ -568,9 +595,10 @@ helper_cases = st.fixed_dictionaries({
 
 
 def checks(tier):
-    n = {"quick": (64, 12, 800, 128), "thorough": (2560, 20, 48000, 3200)}.get(tier, (4, 6, 10, 4))
+    n = {"quick": (96, 12, 800, 128, 128), "thorough": (2560, 20, 48000, 3200, 3200)}.get(tier, (4, 6, 10, 4, 4))
     return [
         Check("viewer_histories", fn_viewer, strategy=viewer_cases(n[1]), examples=n[0]),
         Check("combo_helpers", fn_helper, strategy=helper_cases, examples=n[2]),
         Check("state_roundtrip", fn_state_roundtrip, strategy=state_cases, examples=n[3]),
+        Check("image_reference_histories", fn_viewer, strategy=image_ref_cases, examples=n[4]),
     ]
